@@ -5,129 +5,165 @@ EXE = 'c16'
 THEOREMS = ['Tbox.C16.C16_conforms', 'Tbox.C16.C16_conforms_fresh', 'Tbox.C16.C16_first_match',
             'Tbox.C16.C16_order_once', 'Tbox.C16.C16_balanced', 'Tbox.C16.C16_balanced_after_stop',
             'Tbox.C16.C16_reentrancy_rejected', 'Tbox.C16.C16_balanced_counterexample_unpatched',
-            'Tbox.C16.C16_balanced_after_stop_false_unpatched']
+            'Tbox.C16.C16_reentrancy_counterexample_unpatched']
 import vlib
 SOURCES = ['modules/flow/state_machine.cpp'] + vlib.BASE_SOURCES
 FLAVOUR = 'asan'
 BATCH = 300
 MAX_REPORT = 3
 SHRINK_TESTS = 80
-TRUSTED = ['model lean/TboxModel/C16/Model.lean is hand-written from modules/flow/state_machine.cpp (with patches/C16-01 applied); '
-           'tied by differential runs of generated machine hierarchies',
-           'callbacks are data (scripts): a callback body only logs, observes its own machine or calls start/stop/restart/run on its OWN machine; '
-           'calls from a callback on another machine of the hierarchy, a sub-machine object shared by two states, definition calls after '
-           'the first start and calls addressed directly to a sub-machine are outside the model',
-           'Event.extra is always nullptr; toJson/setName are not modelled']
+TRUSTED = ['two hand-written models of modules/flow/state_machine.cpp (with patches/C16-01 and C16-02), both tied to the C++ by differential runs: '
+           'the TREE model lean/TboxModel/C16/Model.lean (what the theorems are about: callbacks observe/call their own machine and any ancestor) and '
+           'the ARENA model lean/TboxModel/C16/Arena.lean (everything else the API allows: callbacks calling any machine, calls addressed to a '
+           'sub-machine, a machine object attached to several states, definition calls after start, any depth); on every case inside the tree '
+           'fragment the driver runs both and flags a disagreement (M MODEL-MISMATCH)',
+           'outside the tree fragment there is no theorem, only the arena model as coded + the tie',
+           'attachment cycles (a machine reachable from itself) are refused by the protocol; toJson/setName are not modelled']
 ASSUMPTIONS = ['std::function callbacks do not throw', 'state/event ids fit in int (the protocol limits them to 9 digits)',
-               'each sub-machine object is attached to at most one state and the hierarchy is acyclic']
-RULE = ('cases = a generated hierarchy of 1..9 machines (depth <= 3, 1..5 states each incl. user state 0, wildcard/specific routes with '
-        'truth-table guards, specific/default event handlers, terminal routes, scripted callbacks with re-entrant calls) + a call sequence of '
-        'start/run/stop/restart on the root; non-trivial = the model run takes a transition inside a sub-machine (depth >= 1) and the root '
-        'run() returned true at least once; distinct = distinct op text')
+               'the sub-machine attachments are acyclic', 'Event.extra is an opaque pointer: the machine hands it to callbacks unchanged (observed: tag printed by every callback)']
+RULE = ('cases = a generated hierarchy of 1..40 machines (depth <= 10, 1..5 states each incl. user state 0, wildcard/specific routes with '
+        'truth-table guards, specific/default event handlers, terminal routes, scripted callbacks observing/calling their own machine, ancestors, '
+        'or any machine; shared sub-machine objects; events with extra tags) + a call sequence of start/run/stop/restart on the root or addressed '
+        'to a sub-machine, with definition calls in between; non-trivial = the model run takes a transition inside a sub-machine (depth >= 1) '
+        'and a run() returned true at least once; distinct = distinct op text')
 
 EVS = [0, 1, 1, 2, 2, 3, 4, 5]
 
 
-def g_script(rng, p_call=0.12):
+def g_event(rng):
+    e = str(rng.choice(EVS))
+    if rng.random() < 0.15: e += ':%d' % rng.choice([1, 2, 7, 42])
+    return e
+
+
+class Node:
+    def __init__(self): self.idx = None; self.ids = []; self.subs = {}; self.anc = []; self.extra_subs = {}
+
+
+def g_target(rng, node, mode, nmach):
+    """'' = own machine; '@k' = ancestor (tree fragment) or any machine (mode 'any')"""
     r = rng.random()
-    if r < 0.55: return '.'
+    if mode == 'self' or r < 0.45: return ''
+    if mode == 'any' and node.subs and r < 0.65: return '@%d' % rng.choice(list(node.subs.values())).idx
+    if node.anc and r < 0.80: return '@%d' % rng.choice(node.anc)
+    if r < 0.85: return '@%d' % node.idx
+    if mode == 'any': return '@%d' % rng.randrange(nmach)
+    return ''
+
+
+def g_script(rng, node, mode, nmach, p_call=0.3):
+    if rng.random() < 0.5: return '.'
     ops = []
     for _ in range(rng.choice([1, 1, 2, 3])):
-        if rng.random() < p_call * 2.5:
-            ops.append(rng.choice(['s', 'x', 'r', 'e%d' % rng.choice(EVS), 'e%d' % rng.choice(EVS)]))
+        t = g_target(rng, node, mode, nmach)
+        if rng.random() < p_call:
+            ops.append(rng.choice(['s', 'x', 'r', 'e' + g_event(rng), 'e' + g_event(rng)]) + t)
         else:
-            ops.append('o')
+            ops.append('o' + t)
     return ','.join(ops)
 
 
-def g_probe(rng, p_none=0.3):
-    return '-' if rng.random() < p_none else g_script(rng)
+def g_probe(rng, node, mode, nmach, p_none=0.3):
+    return '-' if rng.random() < p_none else g_script(rng, node, mode, nmach)
 
 
-def g_guard(rng):
-    r = rng.random()
-    if r < 0.45: return '-'
+def g_guard(rng, node, mode, nmach):
+    if rng.random() < 0.45: return '-'
     evs = [e for e in [0, 1, 2, 3, 4, 5] if rng.random() < 0.5]
-    return 'G' + '|'.join(str(e) for e in evs) + '/' + g_script(rng)
+    return 'G' + '|'.join(str(e) for e in evs) + '/' + g_script(rng, node, mode, nmach)
 
 
-def gen_machine(rng, lines, counter, depth_left, is_sub):
-    """emit the definition of one machine (children first); returns its index"""
-    n = rng.choice([1, 2, 2, 3, 3, 4, 5])
-    pool_ids = [1, 2, 3, 4, 5, 6, 7]
-    rng.shuffle(pool_ids)
-    ids = pool_ids[:n]
+def build_tree(rng, depth_left, is_sub, counter, anc_holder, p_sub=None):
+    """shape first (post-order indices), so that scripts can name ancestors"""
+    n = Node()
+    k = rng.choice([1, 2, 2, 3, 3, 4, 5])
+    pool_ids = [1, 2, 3, 4, 5, 6, 7]; rng.shuffle(pool_ids)
+    n.ids = pool_ids[:k]
     if rng.random() < 0.25:
-        ids[rng.randrange(n)] = 0           # user-defined state 0
-        if rng.random() < 0.5 and n > 1 and ids[0] == 0:
-            ids[0], ids[1] = ids[1], ids[0]
-    subs = {}
-    for s in ids:
-        if depth_left > 0 and rng.random() < (0.45 if not is_sub else 0.3):
-            subs[s] = gen_machine(rng, lines, counter, depth_left - 1, True)
-    k = counter[0]; counter[0] += 1
+        n.ids[rng.randrange(k)] = 0
+        if rng.random() < 0.5 and k > 1 and n.ids[0] == 0: n.ids[0], n.ids[1] = n.ids[1], n.ids[0]
+    ps = p_sub if p_sub is not None else (0.3 if is_sub else 0.45)
+    kids = []
+    for sid in n.ids:
+        if depth_left > 0 and rng.random() < ps:
+            c = build_tree(rng, depth_left - 1, True, counter, anc_holder, p_sub)
+            n.subs[sid] = c; kids.append(c)
+    n.idx = counter[0]; counter[0] += 1
+    def add_anc(c, a):
+        c.anc.append(a)
+        for cc in c.subs.values(): add_anc(cc, a)
+    for c in kids: add_anc(c, n.idx)
+    anc_holder.append(n)
+    return n
+
+
+def emit_machine(rng, n, mode, nmach, lines, is_sub):
+    ids = n.ids
     lines.append('mach')
-    for s in ids:
-        lines.append('st %d %s %s' % (s, g_probe(rng), g_probe(rng)))
-    if rng.random() < 0.05:
-        lines.append('st %d . .' % ids[0])   # duplicate: newState fails
-    # routes
-    for s in ids:
-        nr = rng.choice([0, 1, 2, 2, 3, 4])
-        for _ in range(nr):
+    for sid in ids:
+        lines.append('st %d %s %s' % (sid, g_probe(rng, n, mode, nmach), g_probe(rng, n, mode, nmach)))
+    if rng.random() < 0.05: lines.append('st %d . .' % ids[0])
+    for sid in ids:
+        for _ in range(rng.choice([0, 1, 2, 2, 3, 4])):
             ev = rng.choice([0, 1, 1, 2, 2, 3, 4])
             r = rng.random()
             if r < (0.3 if is_sub else 0.12): to = 0
             elif r < 0.95: to = rng.choice(ids)
-            else: to = rng.choice([9, -1, 8])   # missing target: addRoute fails (unless 0)
-            lines.append('rt %d %d %d %s %s' % (s, ev, to, g_guard(rng), g_probe(rng, 0.5)))
-    if rng.random() < 0.04:
-        lines.append('rt 9 1 %d - -' % ids[0])   # missing source
-    # handlers
-    for s in ids:
+            else: to = rng.choice([9, -1, 8])
+            lines.append('rt %d %d %d %s %s' % (sid, ev, to, g_guard(rng, n, mode, nmach), g_probe(rng, n, mode, nmach, 0.5)))
+    if rng.random() < 0.04: lines.append('rt 9 1 %d - -' % ids[0])
+    for sid in ids:
         if rng.random() < 0.3:
             for _ in range(rng.choice([1, 1, 2])):
                 ev = rng.choice([0, 1, 2, 3])
-                ents = []
-                for e in rng.sample([1, 2, 3, 4], rng.choice([0, 1, 2])):
-                    ents.append('%d>%d' % (e, rng.choice(ids + [-1, -1, 0, 9, -2])))
+                ents = ['%d>%d' % (e, rng.choice(ids + [-1, -1, 0, 9, -2])) for e in rng.sample([1, 2, 3, 4], rng.choice([0, 1, 2]))]
                 ents.append('*>%d' % rng.choice([-1, -1, -1, rng.choice(ids), 0, -2]))
-                lines.append('ev %d %d %s %s' % (s, ev, '|'.join(ents), g_script(rng)))
-    if rng.random() < 0.03:
-        lines.append('ev 9 1 *>-1 .')
+                lines.append('ev %d %d %s %s' % (sid, ev, '|'.join(ents), g_script(rng, n, mode, nmach)))
+    if rng.random() < 0.03: lines.append('ev 9 1 *>-1 .')
     r = rng.random()
     if r < 0.25: lines.append('init %d' % rng.choice(ids))
-    elif r < 0.28: lines.append('init 9')       # missing init state: start() fails
+    elif r < 0.28: lines.append('init 9')
     elif r < 0.30: lines.append('init -1')
-    if rng.random() < 0.6: lines.append('cb %s' % g_script(rng))
-    for s, j in subs.items():
-        lines.append('sub %d %d' % (s, j))
+    if rng.random() < 0.6: lines.append('cb %s' % g_script(rng, n, mode, nmach))
+    for sid, c in n.subs.items(): lines.append('sub %d %d' % (sid, c.idx))
+    if mode == 'any' and n.idx > 0 and rng.random() < 0.25:
+        # a machine object attached a second time (shared), or to a second state of this machine
+        lines.append('sub %d %d' % (rng.choice(ids), rng.randrange(n.idx)))
     lines.append('end')
-    return k
 
 
-def gen_calls(rng, n):
+def gen_calls(rng, n, mode, nmach):
     ops = []
     if rng.random() < 0.9: ops.append('start')
     for _ in range(n):
         r = rng.random()
-        if r < 0.80: ops.append('run %d' % rng.choice(EVS))
-        elif r < 0.87: ops.append('stop')
-        elif r < 0.93: ops.append('start')
-        else: ops.append('restart')
+        if r < 0.78: op = 'run ' + g_event(rng)
+        elif r < 0.85: op = 'stop'
+        elif r < 0.91: op = 'start'
+        elif r < 0.96: op = 'restart'
+        elif mode == 'any':
+            k = rng.randrange(nmach)
+            op = 'def %d %s' % (k, rng.choice(['st 8 o o', 'rt 1 1 8 - .', 'rt 2 0 0 G1/o .', 'init 2', 'cb o', 'sub 1 0', 'ev 1 1 *>2 o', 'st 1 . .']))
+        else: op = 'run ' + g_event(rng)
+        if mode == 'any' and not op.startswith('def') and rng.random() < 0.15: op += ' @%d' % rng.randrange(nmach)
+        ops.append(op)
     if rng.random() < 0.7: ops.append('stop')
     return ops
 
 
-def gen_case(rng, depth):
-    lines, counter = [], [0]
-    root = gen_machine(rng, lines, counter, depth, False)
-    lines.append('go %d' % root)
-    return lines + gen_calls(rng, rng.choice([6, 12, 20, 30]))
+def gen_case(rng, depth, mode, p_sub=None):
+    counter, nodes = [0], []
+    root = build_tree(rng, depth, False, counter, nodes, p_sub)
+    nmach = counter[0]
+    lines = []
+    for n in nodes:     # post-order = index order
+        emit_machine(rng, n, mode, nmach, lines, n is not root)
+    lines.append('go %d' % root.idx)
+    return lines + gen_calls(rng, rng.choice([6, 12, 20, 30]), mode, nmach)
 
 
 DIRECTED = [
-    # DESIGN §7 row 9: stop() with a running sub-machine
+    # DESIGN §7 row 9 (patches/C16-01): stop() with a running sub-machine
     ['mach', 'st 1 . .', 'st 2 . .', 'rt 1 1 2 - .', 'end',
      'mach', 'st 1 . .', 'st 2 . .', 'rt 1 2 2 - -', 'sub 1 0', 'end', 'go 1',
      'start', 'stop', 'start', 'run 1', 'stop'],
@@ -140,22 +176,38 @@ DIRECTED = [
     ['mach', 'st 1 . .', 'st 2 . .', 'st 3 . .',
      'rt 1 2 2 G1/o .', 'rt 1 0 3 G2|3/o .', 'rt 1 2 2 - .', 'rt 2 0 1 - -', 'rt 3 0 0 - o',
      'ev 1 3 *>-1 o', 'ev 1 0 4>2|5>77|*>-1 o', 'cb o,e1,s,x,r', 'end', 'go 0',
-     'run 1', 'start', 'start', 'run 1', 'run 2', 'run 9', 'run 3', 'run 4', 'run 1', 'run 5', 'run 0', 'run 0', 'run 1', 'stop', 'stop'],
+     'run 1', 'start', 'start', 'run 1', 'run 2', 'run 9', 'run 3', 'run 4:7', 'run 1', 'run 5', 'run 0', 'run 0', 'run 1', 'stop', 'stop'],
     # re-entrant calls from every kind of callback
     ['mach', 'st 1 o,s,x,r,e1 o,s,x,r,e1', 'st 0 o,e2 o,x', 'rt 1 1 0 G1/o,e1,x o,r,e1', 'rt 0 2 1 - o', 'ev 1 2 *>-1 o,s,x,r,e2', 'cb o,s,x,e1', 'end', 'go 0',
-     'start', 'run 2', 'run 1', 'run 2', 'restart', 'stop'],
+     'start', 'run 2', 'run 1:3', 'run 2', 'restart', 'stop'],
     # sub-machine that cannot start (missing init state): the parent never handles events itself
     ['mach', 'st 1 . .', 'init 9', 'end', 'mach', 'st 1 . .', 'st 2 . .', 'rt 1 1 2 - .', 'sub 1 0', 'end', 'go 1',
      'start', 'run 1', 'stop'],
+    # patches/C16-02: the sub-machine's state-changed callback, on reaching its terminal state, calls parent.run()
+    ['mach', 'st 1 . .', 'rt 1 1 0 - .', 'cb o@1,e2@1,o@1', 'end',
+     'mach', 'st 1 . .', 'st 2 . .', 'rt 1 2 2 - .', 'sub 1 0', 'cb o', 'end', 'go 1', 'start', 'run 1', 'run 3', 'stop'],
+    # patches/C16-02: a sub-machine's route action calls parent.stop() / parent.restart() while the parent delegates
+    ['mach', 'st 1 . .', 'st 2 . .', 'rt 1 1 2 - x@1,o@1,r@1', 'end', 'mach', 'st 1 . .', 'sub 1 0', 'end', 'go 1', 'start', 'run 1', 'run 1', 'stop'],
+    # upward calls from start()/stop() paths: the sub's enter/exit actions call the parent and the grand-parent
+    ['mach', 'st 1 s@2,x@2,e1@1,o@2 x@1,s@1,r@2,o@1', 'end', 'mach', 'st 1 . .', 'sub 1 0', 'end',
+     'mach', 'st 1 . .', 'st 2 . .', 'rt 1 1 2 - .', 'rt 2 1 1 - .', 'sub 1 1', 'end', 'go 2', 'start', 'run 1', 'run 1', 'stop', 'restart', 'stop'],
+    # a parent action drives its sub-machines directly; direct calls from outside; late definition calls
+    ['mach', 'st 1 o o', 'st 2 o o', 'rt 1 1 2 - .', 'rt 2 1 0 - o@1,e1@1', 'end',
+     'mach', 'st 1 e1@0,o@0 x@0', 'st 2 s@0 .', 'rt 1 2 2 - x@0,s@0,e1@0', 'rt 2 2 1 - .', 'sub 1 0', 'sub 2 0', 'end', 'go 1',
+     'start', 'run 1', 'run 2', 'run 1 @0', 'stop @0', 'run 2', 'start @0', 'stop', 'def 1 st 3 . .', 'def 0 rt 1 2 1 - .', 'def 1 rt 1 3 3 - .',
+     'start', 'def 1 st 4 . .', 'def 1 sub 3 0', 'run 3', 'stop @0', 'def 0 cb o@1', 'def 0 init 2', 'run 3', 'stop', 'def 1 init 3', 'start', 'stop'],
 ]
 
 MALFORMED = [
     ['start', 'go 0', 'mach', 'mach', 'st -1 . .', 'st 1 . . .', 'st 1 q -', 'st 1 o, -', 'st 1234567890 . .', 'st 1 . .', 'rt 1 1 1 G1 .',
      'rt 1 1 1 G1|/. .', 'rt 1 x 1 - -', 'ev 1 1 1>2 .', 'ev 1 1 *>1|2>3 .', 'ev 1 1 *>-1 -', 'sub 1 0', 'sub 1 5', 'cb -', 'init', 'go 0', 'end',
-     'end', 'sub 1 0', 'go 1', 'go -0', 'go 0', 'mach', 'st 1 . .', 'run', 'run 1 2', 'run 1x', 'stop now', 'frob', 'run -0', 'run 007'],
-    # nesting deeper than the protocol allows
-    ['mach', 'st 1 . .', 'end', 'mach', 'st 1 . .', 'sub 1 0', 'end', 'mach', 'st 1 . .', 'sub 1 1', 'end', 'mach', 'st 1 . .', 'sub 1 2', 'end',
-     'mach', 'st 1 . .', 'sub 1 3', 'sub 1 3', 'sub 1 0', 'end', 'go 3', 'go 4', 'start'],
+     'end', 'sub 1 0', 'go 1', 'go -0', 'go 0', 'mach', 'st 1 . .', 'run', 'run 1 2', 'run 1x', 'stop now', 'frob', 'run -0', 'run 007',
+     'run 1:', 'run 1:2:3', 'run 1:-2', 'run 1 @', 'run 1 @9', 'run 1 @x', '@0', 'stop @0', 'def', 'def 0', 'def 9 st 1 . .', 'def 0 end', 'def 0 st 2 o@5 .',
+     'def 0 sub 1 0', 'def 0 st 2 o@0,e1:2@0 .', 'run 2:5'],
+    # script targets beyond the machines of the case: `go` is refused
+    ['mach', 'st 1 o@3 .', 'end', 'go 0', 'mach', 'st 1 . e1@@2', 'st 1 . e@1', 'end', 'go 0', 'mach', 'end', 'mach', 'end', 'go 0', 'start'],
+    # a cycle of attachments is refused
+    ['mach', 'st 1 . .', 'sub 1 0', 'end', 'mach', 'st 1 . .', 'sub 1 0', 'end', 'go 1', 'def 0 sub 1 1', 'def 0 sub 1 0', 'def 1 sub 1 1', 'start', 'stop'],
 ]
 
 
@@ -171,17 +223,23 @@ def gen(rng, tier):
         for seq in itertools.product(alpha, repeat=L):
             yield defn + list(seq)
     for i in range(n):
-        yield gen_case(rng, rng.choice([0, 1, 2, 2, 3, 3]))
+        r = rng.random()
+        if r < 0.15: yield gen_case(rng, rng.choice([0, 1, 2, 3]), 'self')
+        elif r < 0.60: yield gen_case(rng, rng.choice([1, 2, 2, 3, 3]), 'tree')
+        else: yield gen_case(rng, rng.choice([1, 2, 2, 3]), 'any')
+    # deep nesting (the tree model is instantiated at depth 8; the arena model has no limit)
+    for i in range(n // 20 if tier == 'quick' else n // 8):
+        yield gen_case(rng, rng.choice([4, 5, 6, 8, 10]), rng.choice(['tree', 'tree', 'any']), p_sub=0.6)
     # hostile stream: valid cases with random lines damaged
     for i in range(n // 10):
-        c = gen_case(rng, rng.choice([1, 2]))
+        c = gen_case(rng, rng.choice([1, 2]), rng.choice(['tree', 'any']))
         for _ in range(rng.choice([1, 2, 4])):
             j = rng.randrange(len(c))
             r = rng.random()
             if r < 0.3: c[j] = c[j] + ' x'
             elif r < 0.6: c[j] = c[j].replace(' ', '  -', 1) if ' ' in c[j] else 'zz'
             elif r < 0.8: del c[j]
-            else: c.insert(j, rng.choice(['end', 'mach', 'go 0', 'sub 1 0', 'run 1', 'start']))
+            else: c.insert(j, rng.choice(['end', 'mach', 'go 0', 'sub 1 0', 'run 1', 'start', 'def 0 st 3 . .']))
         yield c
 
 
@@ -189,16 +247,17 @@ def nontrivial(ops, model_lines):
     tags = set()
     for l in model_lines:
         if l.startswith('B '): tags.update(l[2:].split())
-    deep = any(t in tags for t in ('depth1', 'depth2', 'depth3'))
+    deep = any(t.startswith('depth') and t != 'depth0' for t in tags)
     return 1 if (deep and 'run-true' in tags) else None
 
 
 def _shape(line):
     w = line.split()
     if len(w) >= 4 and w[0] == 'P' and w[1] == 'T':
-        return 'T d%d %s' % (0 if w[2] == '/' else w[2].count('/'), w[3])
+        return 'T %s' % w[3].split('@')[0]
+    if w and w[0] == 'CRASH': return ' '.join(w[:2])[:40]
     if len(w) >= 2 and w[0] == 'P':
-        return w[1] if w[1] in ('S', 'R', 'st', 'rt', 'ev', 'sub', 'go', 'end', 'mach', 'init', 'cb') else 'P?'
+        return w[1] if w[1] in ('S', 'R', 'st', 'rt', 'ev', 'sub', 'go', 'end', 'mach', 'init', 'cb', 'def') else 'P?'
     return w[0] if w else '-'
 
 
@@ -215,9 +274,10 @@ def fingerprint(ops, d):
 LEVEL_TEXT = ('Lean 4 theorems over a hand-written model of StateMachine::Impl (start/stop/restart/run with cb_level_, nested machines of any '
               'depth): refinement to an independently written reference semantics for every definition and call sequence, first-match route '
               'selection, exit/action/enter/notify exactly once and in order per transition, enter/exit balance at every nesting level, '
-              're-entrant calls rejected without state change; the model is tied to state_machine.cpp on every run by differential execution '
+              're-entrant calls on the own machine and on every ancestor rejected without state change; the model is tied to state_machine.cpp on every run by differential execution '
               'of generated hierarchies (ASan+UBSan build of the working tree)')
 LEVEL_NOTE = ('trusted: Lean kernel, hand-written model + differential tie (coverage bounded by the generator, measured in evidence); callbacks '
-              'only act on their own machine; shared sub-machine objects and cross-machine calls from callbacks are outside the model')
+              'calling machines other than their own or an ancestor, shared sub-machine objects, direct calls to sub-machines and late definition calls '
+              'are covered by the arena model + tie only, not by the theorems')
 TECHNIQUE = 'Lean 4 refinement proof (transcribed model -> reference semantics) + model/implementation correspondence check'
 DESIGN_REF = 'DESIGN.md §6 C16, §7 row 9'
